@@ -8,7 +8,7 @@ mkdir -p .build/bin evidence replays
 "$GO125" build -o .build/bin/vcheck ./cmd/vcheck
 "$GO125" build -o .build/bin/instrument ./cmd/instrument
 set +e
-ids=$(ls checks/*/check.json | xargs -n1 dirname | xargs -n1 basename | tr a-z A-Z)
+ids=$(cat accepted.txt)
 fail=0
 # builds share one cache; run a few in parallel
 printf '%s\n' $ids | xargs -P 4 -I{} sh -c '.build/bin/vcheck {} --build-only >/dev/null 2>.build/setup-{}.log || { echo "setup: build of {} failed" >&2; cat .build/setup-{}.log >&2; exit 1; }' || fail=1
